@@ -406,6 +406,13 @@ def run_case(case):
     if sum(case["rs"]) % 3 == 0:
         A = sp.linop.NUFFT(batch + grid, coord, oversamp=ov, width=w)
         B = sp.linop.NUFFTAdjoint(batch + grid, coord, oversamp=ov, width=w)
+        if (sum(case["rs"]) // 3) % 2 == 0:
+            # the operators went through pickle / a deep copy between construction and use
+            import copy
+            import pickle
+            A, B = pickle.loads(pickle.dumps(A)), copy.deepcopy(B)
+            if sum(case["rs"]) % 2:
+                B = pickle.loads(pickle.dumps(B))
         for op_, shp_ in ((A, batch + grid), (B, list(y.shape))):
             for bad_ in (np.ones(shp_, np.int64), np.ones(shp_ + [2], np.complex128),
                          np.ones(shp_, np.float32)):
